@@ -16,9 +16,10 @@ let run (input : string) (obs : string) : string * string =
   let t = { l = words input } in
   match next t with
   | "wreset" -> state.opl <- (next t = "opl"); state.s <- []; state.prev <- ""; ("-", "na")
-  | ("wchange" | "wremove") as k ->
-    let f = bytes_tok t in
-    let e = if k = "wremove" then WRemove f
+  | ("wchange" | "wremove" | "wtouch") as k ->
+    let f = if k = "wtouch" then (ignore (next t); []) else bytes_tok t in
+    let e = if k = "wtouch" then WTouch
+      else if k = "wremove" then WRemove f
       else if state.opl then WChange (f, version_of_opl (bytes_tok t))
       else (match next t with
           | "valid" -> WChange (f, Some [bytes_tok t])
